@@ -24,8 +24,9 @@ SInit == /\ l = 1 /\ w = NewWorld /\ skip = FALSE
 
 \* the parts of a datagram description both sides can know
 DView(d) == IF d.kind = "None" THEN [kind |-> "None"]
-            ELSE [kind |-> d.kind, key |-> d.key, seq |-> d.seq, len |-> d.len, tok |-> d.tok, cseq |-> d.cseq, cid |-> d.cid, cud |-> d.cud,
-                  ptag |-> d.ptag, plen |-> d.plen, to |-> d.to]
+            ELSE [kind |-> d.kind, key |-> d.key, proto |-> d.proto, seq |-> d.seq, len |-> d.len, tok |-> d.tok, cseq |-> d.cseq, cid |-> d.cid,
+                  cud |-> d.cud, ptag |-> IF d.plen < 4 THEN 0 ELSE d.ptag,    \* the first four content bytes spell the tag: shorter payloads cannot tell tags apart
+                  plen |-> d.plen, to |-> d.to]
 OutsView(outs) == [i \in 1..Len(outs) |-> [type |-> outs[i].type, id |-> outs[i].id, addr |-> outs[i].addr, for |-> outs[i].for, d |-> DView(outs[i].d)]]
 
 \* the event as the model predicts it, reduced to comparable fields
